@@ -26,6 +26,70 @@ pub fn params(tier: Tier) -> WsGen {
     }
 }
 
+/// Small-scope enumeration: two connections in one torrent (so the receiver of every offer is
+/// determined), two offer ids, max_offer_age 2; every sequence up to a bound over
+/// {A offers id 0, A offers id 1, B offers id 0, tick 1 s, clean, B answers A's offer id 0,
+/// B answers A's offer id 1} is run. This covers refreshed offers (same receiver and id
+/// sent again), offers of different age stored side by side, cleans between their deadlines and
+/// answers before / after each of them.
+#[derive(Debug, Clone, serde::Serialize, serde::Deserialize)]
+pub struct SmallCase {
+    pub seq: Vec<u8>,
+    pub max_offer_age: u32,
+}
+
+fn small_to_case(c: &SmallCase) -> WsCase {
+    let mut ops = vec![
+        WsOp::Open { worker: 0, v6: false },
+        WsOp::Open { worker: 1, v6: false },
+        WsOp::Announce { conn: 0, t: 0, pid: 0, event: 1, left: Some(1), offers: None, answer: None, sticky: true },
+        WsOp::Announce { conn: 1, t: 0, pid: 1, event: 1, left: Some(0), offers: None, answer: None, sticky: true },
+    ];
+    for x in &c.seq {
+        ops.push(match x % 7 {
+            0 => WsOp::Announce { conn: 0, t: 0, pid: 0, event: 0, left: Some(1), offers: Some(vec![0]), answer: None, sticky: true },
+            1 => WsOp::Announce { conn: 0, t: 0, pid: 0, event: 0, left: Some(1), offers: Some(vec![1]), answer: None, sticky: true },
+            2 => WsOp::Announce { conn: 1, t: 0, pid: 1, event: 0, left: Some(0), offers: Some(vec![0]), answer: None, sticky: true },
+            3 => WsOp::Tick { dt: 1 },
+            4 => WsOp::Clean { dt: 0 },
+            // B answers A's offer with id 0 / id 1 (whether or not such an offer is pending)
+            5 => WsOp::Announce { conn: 1, t: 0, pid: 1, event: 0, left: Some(0), offers: None, answer: Some((0, 0)), sticky: true },
+            _ => WsOp::Announce { conn: 1, t: 0, pid: 1, event: 0, left: Some(0), offers: None, answer: Some((0, 1)), sticky: true },
+        });
+    }
+    WsCase { max_offers: 10, max_scrape_torrents: 10, max_peer_age: 1000, max_offer_age: c.max_offer_age, rng_seed: 1, access_mode: 0, ops }
+}
+
+pub fn prop_small(c: &SmallCase) -> CaseResult {
+    let mut o = run_ws_case(&small_to_case(c), WsOracles { signalling: true, ..Default::default() })?;
+    o.nontrivial = o.labels.iter().any(|l| matches!(l.as_str(), "answer-forwarded" | "answer-rejected"));
+    Ok(o)
+}
+
+fn small_cases(max_len: usize) -> Vec<SmallCase> {
+    let mut v = Vec::new();
+    let mut seq: Vec<u8> = Vec::new();
+    fn rec(seq: &mut Vec<u8>, max_len: usize, v: &mut Vec<SmallCase>) {
+        // only sequences that end in an answer can show a wrongly forwarded / rejected answer
+        if matches!(seq.last(), Some(5 | 6)) {
+            for age in [1u32, 2] {
+                v.push(SmallCase { seq: seq.clone(), max_offer_age: age });
+            }
+        }
+        if seq.len() == max_len {
+            return;
+        }
+        for x in 0..7u8 {
+            // prune: two ticks/cleans in a row beyond 2 add nothing new at these ages
+            seq.push(x);
+            rec(seq, max_len, v);
+            seq.pop();
+        }
+    }
+    rec(&mut seq, max_len, &mut v);
+    v
+}
+
 pub fn run(ctx: &mut Ctx) {
     ctx.assume("same shim and mock clock as C08");
     ctx.run_regress::<WsCase, _>("signalling", prop);
@@ -35,8 +99,15 @@ pub fn run(ctx: &mut Ctx) {
     for l in ["answer-forwarded", "answer-rejected", "offers-forwarded", "clean-expired-offer"] {
         ctx.require_label("signalling", l, 0.02);
     }
+    ctx.run_regress::<SmallCase, _>("small-scope", prop_small);
+    ctx.run_enum("small-scope", small_cases(ctx.tier.pick(7, 8)), true, prop_small);
+    ctx.require_label("small-scope", "clean-expired-offer", 0.01);
+    ctx.require_label("small-scope", "answer-forwarded", 0.05);
 }
 
 pub fn replay(path: &str, _sub: &str, case: serde_json::Value) -> i32 {
+    if _sub == "small-scope" {
+        return replay_one::<SmallCase, _>("C09", path, case, prop_small);
+    }
     replay_one::<WsCase, _>("C09", path, case, prop)
 }
